@@ -14,8 +14,9 @@ import numpy as np
 from . import expr as E
 
 
-CB_LOG = []   # invocations of the user callback in this process: (actor name, iteration)
-CB_HOOKS = {}  # actor name -> hook run from inside the callback (re-entry), set by the world
+CB_LOG = []   # invocations of the user callback in this process: (name the callback was created with, iteration)
+CB_HOOKS = {}  # "*" -> dispatcher of the world: what the callback does (re-entry, injected failure) depends on the actor
+               # that is being solved, not on the name the callback object was created with (it survives save/load)
 
 
 def user_callback(name):
@@ -30,7 +31,7 @@ class UserCallback:
 
     def __call__(self, it, sol):
         CB_LOG.append((self.name, it))
-        hook = CB_HOOKS.get(self.name)
+        hook = CB_HOOKS.get("*")
         if hook is not None:
             hook(it, sol)
 
